@@ -12,9 +12,10 @@ import (
 
 // Parts are the verbatim blocks of a grammar file.
 type Parts struct {
-	Prologue string // text between %{ and %}
-	Union    string // text between the braces of %union
-	Epilogue string // text after the second %%
+	Prologue  string // text between %{ and %}
+	Prologue2 string // optional second %{ %} block (later in the declaration section)
+	Union     string // text between the braces of %union
+	Epilogue  string // text after the second %%
 }
 
 // Options control the layout.
@@ -137,6 +138,9 @@ func Render(g *spec.Grammar, p Parts, o Options) string {
 	// --- declaration blocks, each a []lex; order shuffled where irrelevant
 	var blocks [][]lex
 	blocks = append(blocks, []lex{{s: "%{\n" + p.Prologue + "\n%}", raw: true}})
+	if p.Prologue2 != "" {
+		blocks = append(blocks, []lex{{s: "%{\n" + p.Prologue2 + "\n%}", raw: true}})
+	}
 	if !o.NoUnion {
 		ub := "%union {" + p.Union + "}"
 		switch coin(3) {
@@ -234,6 +238,20 @@ func Render(g *spec.Grammar, p Parts, o Options) string {
 	// shuffle non-precedence blocks (keep prologue first for readability in canonical mode)
 	if r != nil {
 		r.Shuffle(len(blocks), func(i, j int) { blocks[i], blocks[j] = blocks[j], blocks[i] })
+		// the two prologue blocks keep their relative order
+		i1, i2 := -1, -1
+		for i, b := range blocks {
+			if len(b) == 1 && b[0].raw && strings.HasPrefix(b[0].s, "%{") {
+				if b[0].s == "%{\n"+p.Prologue+"\n%}" && i1 < 0 {
+					i1 = i
+				} else {
+					i2 = i
+				}
+			}
+		}
+		if i1 >= 0 && i2 >= 0 && i2 < i1 {
+			blocks[i1], blocks[i2] = blocks[i2], blocks[i1]
+		}
 	}
 	// precedence lines: relative order fixed, but they must come after the
 	// %token line of every token they name when that token carries a tag or a
